@@ -8,6 +8,7 @@ Arg tree: {"k": "i"|"f"|"s"|"l"|"d"|"obj"|"map", "i": int (floats * 8; obj/map: 
 No verdicts here: TraceServerCmd.tla decides."""
 import json
 import os
+import re
 import struct
 import sys
 
@@ -67,7 +68,14 @@ def read_msg(d):
             p += {'d': 8, 'h': 8, 't': 8}.get(c, 0)
     if p != len(d):
         raise ValueError('trailing bytes')
-    return {'a': addr, 'g': g, 'b': blobs}
+    # projection of bus map symbols ('c<index>' / 'a<index>' string arguments; the definition name of /s_new is not one)
+    mp = []
+    for k, x in enumerate(g):
+        if x['t'] == 's' and not (addr == '/s_new' and k == 0):
+            mm = re.fullmatch(r'([ca])(\d{1,9})', x['s'])
+            if mm:
+                mp.append({'k': mm.group(1), 'i': int(mm.group(2))})
+    return {'a': addr, 'g': g, 'b': blobs, 'mp': mp}
 
 
 def read_packet(d):
